@@ -193,13 +193,15 @@ with SqliteImpl.impl_store.impl_manager as impl:
     def _floor(x):
         return -sqa.func.ceil(-x)
 
+    # SQLite has no nan (it is stored as NULL): no value is nan, and the answer for NULL is NULL. These must be SQL
+    # expressions (not python bools), since they are combined with `|`, `&`, `~` and used as case conditions.
     @impl(ops.is_nan)
     def _is_nan(x):
-        return False
+        return x != x
 
     @impl(ops.is_not_nan)
     def _is_not_nan(x):
-        return True
+        return x == x
 
     @impl(ops.cbrt)
     def _cbrt(x):
